@@ -599,6 +599,8 @@ def _history(w, r, rec, nevents, want_model, parse_gitlog, snap_of, deadline=Non
             st = {"dirs": pre_state.get("dirs", {}), "attic": pre_state.get("attic", {}), "unreadable": True}
         state = st
         evs, errkind = parse_output(text)
+        if rc == 0 and errkind != "parse":
+            errkind = None      # messages of a failed inline switch that ended in the attic are no error of the run
         cache.clear()
         post = obs.contents(state, cache)
         rec["log"].append("%s %s -> rc=%s%s" % (kind, " ".join(args[1:]), rc, " (" + errkind + ")" if errkind else ""))
@@ -706,7 +708,6 @@ def _history(w, r, rec, nevents, want_model, parse_gitlog, snap_of, deadline=Non
                 tok = w.token("own")
                 with open(os.path.join(wsroot, d, "own%d.txt" % w.counter), "w") as fh:
                     fh.write(tok + "\n")
-                ledger.append({"kind": "file", "token": tok, "name": "own%d.txt" % w.counter})
                 rec["log"].append("user-mkdir " + d)
                 touched.add(d)
                 changed = True
@@ -796,7 +797,6 @@ def _history(w, r, rec, nevents, want_model, parse_gitlog, snap_of, deadline=Non
             tok = w.token("own")
             with open(os.path.join(wsroot, d, "own%d.txt" % w.counter), "w") as fh:
                 fh.write(tok + "\n")
-            ledger.append({"kind": "file", "token": tok, "name": "own%d.txt" % w.counter, "dir": d})
             rec["log"].append("user-mkdir " + d)
             touched.add(d)
             specs = [dict(s_) for s_ in specs] + [gen_git_spec(r, w, d)]
@@ -1089,7 +1089,7 @@ def compare_history(ctx, rec, replies):
                 ctx.count("decision", "clean-src-remove")
         iops = [[e[0], norm(os.path.relpath(e[1], WS))] for e in ev["evs"]]
         merr = (m.get("err") or {}).get("kind")
-        ierr = ev["errkind"] or (None if ev["rc"] == 0 else "scmFailed")
+        ierr = (None if ev["rc"] == 0 else (ev["errkind"] or "scmFailed"))
         if merr == "scmFailed" and ierr and ierr.startswith("scmFailed:"):
             # which SCM of the step failed
             if norm(ierr.split(":", 1)[1]) != norm((m.get("err") or {}).get("dir", "?")):
@@ -1198,7 +1198,7 @@ def histories(ctx, want_model):
     for i in range(n):
         hseed = "C12-%d-%s-%d" % (ctx.seed, ctx.tier, i)
         jobs.append((os.path.join(ctx.tmp, "h%d" % i), os.path.join(ctx.repo, "pym"), hseed, r.randrange(lo, hi + 1), True,
-                     ctx.t0 + ctx.budget - 40))
+                     getattr(ctx, 't_run0', ctx.t0) + ctx.budget - 40))
     recs = []
     batch = 16
     for i in range(0, len(jobs), batch):
